@@ -461,7 +461,7 @@ def main(argv=None):
         path = os.path.join(VERIF, 'replays', '%s-%d.json' % (prop, n))
         with open(path, 'w') as f:
             json.dump({'property': prop, 'obligation': r['id'], 'family': r['family'],
-                       'params': to_jsonable(ob.params) if ob else None,
+                       'params': to_jsonable(ob.params) if ob else to_jsonable(r.get('params')),
                        'args': r.get('cex'), 'message': r.get('message'),
                        'replay_outcome': r.get('replay'), 'replay_text': r.get('replay_text'),
                        'how': 'cd /verif && ./check %s --replay %s' % (prop, path)}, f, indent=1)
